@@ -13,7 +13,8 @@
    mask_password is any function (mp).  wf d: no mapping in d has two equal keys (true of
    every Python Mapping).  Non-vacuity instances: Proofs/C08.v section 7 (ex_d ...). *)
 Require Import OV.Base.Bytes OV.Base.Py OV.Base.Str.
-Require Import OV.Model.C08_Syntax OV.Gen.C08_Keys OV.Gen.C08_Shape OV.Model.C08 OV.Proofs.C08.
+Require Import OV.Model.C08_Syntax OV.Gen.C08_Keys OV.Gen.C08_Shape OV.Gen.C08_Frame OV.Model.C08 OV.Proofs.C08.
+Require Import OV.Model.C08_Heap OV.Proofs.C08_Heap.
 
 (* the result of a mapping argument exists (no exception) and is related to the argument by
    the four rules of Masked, at every depth — no bound on depth or width *)
@@ -97,3 +98,74 @@ Theorem C08_final_sigma_irrelevant : forall (keys : list str) (t s : str),
   sigma_free keys = true -> map sig_norm t = map sig_norm s -> contains_any keys t = contains_any keys s.
 Proof. exact final_sigma_irrelevant. Qed.
 Print Assumptions C08_final_sigma_irrelevant.
+
+(* ====================================================================================== *)
+(* Object identity (Model/C08_Heap.v): a heap of objects, values are references, the       *)
+(* function evaluated in store-passing style; where it writes and what it returns are      *)
+(* regenerated from the source (Gen/C08_Frame.v).  mp_h is mask_password on the heap, an    *)
+(* arbitrary function meeting its contract (it only allocates; the reference it returns     *)
+(* holds mask_password(message, secret)).  Instances: Proofs/C08_Heap.v section 4.          *)
+(* ====================================================================================== *)
+
+(* "the argument and everything reachable from it is left unmodified": EVERY location that
+   existed before the call — reachable from the argument or not — holds the same object
+   afterwards.  No hypothesis on the heap: any sharing, cycles included; any fuel. *)
+Theorem C08_argument_unmodified :
+  forall (mp_h : heap -> loc -> loc -> heap * loc),
+  (forall h m s, exists e, fst (mp_h h m s) = h ++ e) ->
+  forall fuel h secret d h' r,
+  mdp_h mp_h fuel h secret d = Ok (h', r) ->
+  (length h <= length h')%nat /\ forall l, (l < length h)%nat -> hget h' l = hget h l.
+Proof. exact mdp_h_frame. Qed.
+Print Assumptions C08_argument_unmodified.
+
+(* For an argument d that is the root of a finite structure unfolding to the tree t
+   (Den 0 h d t: acyclic, arbitrarily shared — decidable through [denote], C08_denote_sound),
+   with enough fuel for its height:
+   - the call succeeds and returns a location r allocated by the call (r = length h);
+   - C08_heap_agrees_with_tree: r reads back as exactly the tree the functional model mdp
+     returns for t (so every theorem above transfers to the heap model);
+   - C08_result_fresh: in that reading every DICT location — r and every dict reachable from it
+     through dict edges — is >= length h, i.e. was allocated by the call: no mapping of the
+     argument is aliased by the result.  (Non-mapping values are NOT copied: see C08_result_sharing.) *)
+Theorem C08_heap_agrees_with_tree_and_result_fresh :
+  forall (mp : str -> str -> str) (mp_h : heap -> loc -> loc -> heap * loc),
+  (forall h m s, exists e, fst (mp_h h m s) = h ++ e) ->
+  (forall h m s ms ss, hget h m = Some (PStr ms) -> hget h s = Some (PStr ss) ->
+     hget (fst (mp_h h m s)) (snd (mp_h h m s)) = Some (PStr (mp ms ss))) ->
+  forall fuel h d secret ss t,
+  Den 0 h d t -> is_mapping t = true -> hget h secret = Some (PStr ss) -> (height t < fuel)%nat ->
+  exists h' r t',
+    mdp_h mp_h fuel h secret d = Ok (h', r) /\ mdp mp ss t = Ok t' /\
+    Den (length h) h' r t' /\ r = length h.
+Proof. exact heap_agrees_with_tree. Qed.
+Print Assumptions C08_heap_agrees_with_tree_and_result_fresh.
+
+(* the hypothesis Den 0 h d t is decidable: read d back with fuel (S (length h) suffices for
+   every acyclic structure) *)
+Theorem C08_denote_sound : forall n h l v, denote n h l = Some v -> Den 0 h l v.
+Proof. exact denote_sound. Qed.
+Print Assumptions C08_denote_sound.
+
+(* what the code does on a structure that contains itself (excluded above by Den): it
+   recurses until the interpreter's limit — RecursionError (a RuntimeError), for any fuel *)
+Theorem C08_cycle_RecursionError :
+  forall (mp_h : heap -> loc -> loc -> heap * loc) k kd rest d fuel h secret,
+  hget h d = Some (PDict kd ((k, d) :: rest)) -> mdp_h mp_h fuel h secret d = Exn RuntimeError.
+Proof. exact cycle_RecursionError. Qed.
+Print Assumptions C08_cycle_RecursionError.
+
+(* C08_result_sharing — which result slots are which objects, at every depth (Shr, Model/C08_Heap.v):
+   under each key, a mapping value is replaced by a dict allocated by the call (and so on inside it);
+   a non-mapping value under a secret key IS the secret reference; any other non-string value
+   (list, bytes, number, None, ...) IS the argument's own reference — the result aliases the
+   lists etc. of the argument, that is what "returned as they are" means; for other strings the
+   reference is whatever mask_password returned.  Hypothesis wf t: no mapping has two equal keys. *)
+Theorem C08_result_sharing :
+  forall (mp_h : heap -> loc -> loc -> heap * loc),
+  (forall h m s, exists e, fst (mp_h h m s) = h ++ e) ->
+  forall fuel h d secret ss t h' r,
+  Den 0 h d t -> wf t = true -> is_mapping t = true -> hget h secret = Some (PStr ss) ->
+  mdp_h mp_h fuel h secret d = Ok (h', r) -> Shr (length h) secret h h' d r t.
+Proof. exact result_sharing. Qed.
+Print Assumptions C08_result_sharing.
